@@ -1,4 +1,4 @@
-\* C15 quick: every single update (14 plugins x 13 ids x 8 device lists) on 5 initial maps, then Parse
+\* C15 quick: every single update (16 plugins x 15 ids x 8 device lists) on 5 initial maps, then Parse
 SPECIFICATION Spec
 CONSTANTS
   Plugins <- MCPlugins
